@@ -79,4 +79,14 @@ impl Buildpack for TB {
     }
     fn on_error(&self, _e: Error<TErr>) { log("on_error"); }
 }
-fn main() { libcnb::libcnb_runtime(&TB); }
+fn main() {
+    // exec.d mode (C07): write one program output through the real write_exec_d_program_output (fd 3)
+    if let Ok(k) = std::env::var("VERIF_EXECD") {
+        let key: libcnb::data::exec_d::ExecDProgramOutputKey = k.parse().unwrap();
+        let other: libcnb::data::exec_d::ExecDProgramOutputKey = "OTHER".parse().unwrap();
+        let map = std::collections::HashMap::from([(key, std::env::var("VERIF_EXECD_VALUE").unwrap()), (other, std::env::var("VERIF_EXECD_VALUE2").unwrap())]);
+        libcnb::exec_d::write_exec_d_program_output(libcnb::data::exec_d::ExecDProgramOutput::new(map));
+        return;
+    }
+    libcnb::libcnb_runtime(&TB);
+}
